@@ -557,4 +557,58 @@ theorem ecmd_step_refused (f : Nat) (s : MmlState) (hs : Sane s) (cmd : Cmd) (ta
   · exact revRest_step_refused f s hs d tail hsuf hn ht hne
   · exact grace_step_refused f s hs l hc a d tail hsuf hn ht hne
 
+/-! ### the look-ahead condition of the whole extended set on canonical lines -/
+
+theorem countBlanks_head (l : List Nat) (c : Nat) (h : l.head? = some c) (hc : 33 ≤ c ∧ c < 128) : LineBuffer.countBlanks l = 0 := by
+  cases l with
+  | nil => simp at h
+  | cons x r => simp at h; subst h; simp [LineBuffer.countBlanks, not_blank_of_range x hc]
+
+/-- `\` with a written duration (or at the end of the line) on a canonical line -/
+theorem echoTail_lsepTail (d : Dur) (tail : List Nat) (hn : DurNums d) (ht : LSepTail tail) (hd : d = .dflt 0 → tail = []) :
+    ECmdTail (.echo d) tail := by
+  refine ⟨durTail_lsepTail d tail ht, ?_⟩
+  have key : ∀ c, (d.bytes ++ tail).head? = some c → (33 ≤ c ∧ c < 128) ∧ c ≠ 61 →
+      LineBuffer.countBlanks (d.bytes ++ tail) = 0 ∧ (d.bytes ++ tail).head? ≠ some 61 := by
+    intro c h hc
+    refine ⟨countBlanks_head _ c h hc.1, ?_⟩
+    rw [h]; simp; exact hc.2
+  cases d with
+  | dflt k =>
+    cases k with
+    | zero =>
+      have := hd rfl; subst this
+      exact ⟨by simp [Dur.bytes, dotsBytes, LineBuffer.countBlanks], by simp [Dur.bytes, dotsBytes]⟩
+    | succ k => exact key 46 (by simp [Dur.bytes, dotsBytes, List.replicate_succ]) (by omega)
+  | len n k =>
+    obtain ⟨c, r, hcr, hc⟩ := num_bytes_head_nonneg n (by have := hn.2; omega)
+    exact key c (by simp [Dur.bytes, hcr]) (by omega)
+  | frames n k => exact key 58 (by simp [Dur.bytes]) (by omega)
+
+theorem ecmdTail_lsepTail (t : Track) (cmd : Cmd) (tail : List Nat) (hn : ECmdNums t cmd) (ht : LSepTail tail)
+    (hecho : cmd = .echo (.dflt 0) → tail = []) : ECmdTail cmd tail := by
+  have hb : ∀ n : Num, numBase n ≤ 16 := fun n => by unfold numBase; split <;> omega
+  cases cmd with
+  | echo d => exact echoTail_lsepTail d tail hn ht (fun h => hecho (by rw [h]))
+  | echoSet dl v => exact numEnd_lsepTail _ (hb v) tail ht
+  | note l a d => exact lcmdTail_lsepTail t (.note l a d) tail hn ht
+  | rest d => exact lcmdTail_lsepTail t (.rest d) tail hn ht
+  | tie d => exact lcmdTail_lsepTail t (.tie d) tail hn ht
+  | slur => exact lcmdTail_lsepTail t (.slur) tail hn ht
+  | octave n => exact lcmdTail_lsepTail t (.octave n) tail hn ht
+  | octUp => exact lcmdTail_lsepTail t (.octUp) tail hn ht
+  | octDown => exact lcmdTail_lsepTail t (.octDown) tail hn ht
+  | length d => exact lcmdTail_lsepTail t (.length d) tail hn ht
+  | quantize n => exact lcmdTail_lsepTail t (.quantize n) tail hn ht
+  | early n => exact lcmdTail_lsepTail t (.early n) tail hn ht
+  | revRest d => exact lcmdTail_lsepTail t (.revRest d) tail hn ht
+  | grace l a d => exact lcmdTail_lsepTail t (.grace l a d) tail hn ht
+  | measure n => exact lcmdTail_lsepTail t (.measure n) tail hn ht
+  | shuffle n => exact lcmdTail_lsepTail t (.shuffle n) tail hn ht
+  | keyScale nm => exact lcmdTail_lsepTail t (.keyScale nm) tail hn ht
+  | keyMod g => exact lcmdTail_lsepTail t (.keyMod g) tail hn ht
+  | drum n => exact lcmdTail_lsepTail t (.drum n) tail hn ht
+  | simple sm n => exact lcmdTail_lsepTail t (.simple sm n) tail hn ht
+  | bar => exact lcmdTail_lsepTail t (.bar) tail hn ht
+
 end Ctrmml.Mml
